@@ -75,7 +75,8 @@ def build_sets(case):
         pb = {"a": jnp.asarray(c12.rows_of("a", b) * scale)} if form in ("param", "both") else None
         obs = None
         if form in ("obs", "both"):
-            o = {"pinn_in": jnp.asarray(L.points(b, nv, salt=8 + salt)), "val": jnp.asarray(np.linspace(0.2, 0.6, b)[:, None] * scale), "eq_params": {}}
+            o = {"pinn_in": jnp.asarray(L.points(b, nv, salt=8 + salt)), "val": jnp.asarray(np.linspace(0.2, 0.6, b)[:, None] * scale),
+                 "eq_params": {"b": jnp.asarray(c12.OBS_B[:b] * scale)}}
             obs = {"u": o} if kind.startswith("sys") else o
         batch = L.make_batch(bk, pts, param=pb, obs=obs)
         key = jax.random.PRNGKey(case["key"] + salt)
@@ -105,7 +106,8 @@ def build_sets(case):
         vals = {k: np.broadcast_to((c12.CALLER[k] * scale + off).reshape(1, -1), (b, c12.CALLER[k].size)) for k in c12.KEYS3}
         if pb is not None:
             vals["a"] = c12.rows_of("a", b) * scale
-        exp = c12.oracle_terms(P2, pts, o if form in ("obs", "both") else {"pinn_in": np.zeros((0, nv)), "val": np.zeros((0, 1))}, vals)
+        exp = c12.oracle_terms(P2, pts, o if form in ("obs", "both") else {"pinn_in": np.zeros((0, nv)), "val": np.zeros((0, 1))}, vals,
+                               {"b": c12.OBS_B[:b] * scale} if form in ("obs", "both") else None)
         if form not in ("obs", "both"):
             exp["observations"] = 0.0
         sets[tag] = dict(params=params, batch=batch, gen=gen, pgen=pgen, ogen=ogen, expected=exp)
